@@ -9,6 +9,7 @@ QUICK = [
     ("plain-escqq", ["submit=0", "nn=0", "snn=0", "escqq=1", "qq=03", "zz=fe,15"]),
     ("plain-chunk2", ["chunk2=1", "submit=0", "nn=1", "snn=1", "qq=03,15", "zz=fe,03,15"]),
     ("enh-split", ["enhanced=1", "chunk2=1", "enhsplit=1", "submit=0", "nn=1", "snn=1", "qq=03", "zz=fe,15,03"]),
+    ("enh-ctl", ["enhanced=1", "enhctl=1", "submit=0", "nn=1", "snn=1", "qq=03", "zz=fe,15,03"]),
     ("plain-answer-conflict", ["answer=1", "ans=aa:36:b509:-:00", "submit=0", "nn=0", "snn=0", "qq=03,31", "zz=fe,36,31,15"]),
 ]
 THOROUGH = QUICK + [
